@@ -10,6 +10,7 @@ package sim
 import (
 	"fmt"
 	"hash/fnv"
+	"os"
 	"runtime"
 	"sort"
 	"strconv"
@@ -234,10 +235,14 @@ func (s *Sched) Go(role Role, inst *Instance, name string, fn func()) *G {
 		s.Gate(role.String() + ".start")
 		fn()
 	}()
+	// synctest.Wait makes everything the other goroutines did before they
+	// blocked happen-before its return (the runtime tells the race detector
+	// so); the root goroutine must not carry that on to the goroutines it
+	// talks to next (notification channels, goroutine creation)
 	raceOff()
 	g := <-ready
-	raceOn()
 	synctest.Wait()
+	raceOn()
 	return g
 }
 
@@ -434,7 +439,13 @@ func (s *Sched) Do(a Action) {
 		d := g.Inst.Pending[0]
 		g.Inst.Pending = g.Inst.Pending[1:]
 		s.mu.Unlock()
+		if os.Getenv("VERIF_EXP_INJECT_OFF") != "" {
+			raceOff()
+		}
 		g.Inst.inject(d)
+		if os.Getenv("VERIF_EXP_INJECT_OFF") != "" {
+			raceOn()
+		}
 		s.mu.Lock()
 	}
 	if g.parked == "db.begin" {
@@ -447,8 +458,8 @@ func (s *Sched) Do(a Action) {
 	s.mu.Unlock()
 	raceOff()
 	g.ch <- struct{}{}
-	raceOn()
 	synctest.Wait()
+	raceOn()
 }
 
 // Step picks one enabled action from the tape. It returns false when nothing
